@@ -516,7 +516,8 @@ void UMIteratorInitialize(UMessageFieldNameIterator * iter, const UMessage * msg
    iter->_typeCode = typeCode;
    if (msg->_numValidBytes > MESSAGE_HEADER_SIZE)
    {
-      iter->_currentField = msg->_buffer+MESSAGE_HEADER_SIZE;
+      uint8 * firstField = msg->_buffer+MESSAGE_HEADER_SIZE;
+      iter->_currentField = IsFieldPointerValid(msg, firstField) ? firstField : NULL;  /* never point the iterator at a field that doesn't fit inside the buffer */
       if (UMIteratorCurrentFieldMatches(iter) == UFalse) UMIteratorAdvance(iter);
    }
    else iter->_currentField = NULL;
@@ -589,21 +590,22 @@ void UMIteratorAdvance(UMessageFieldNameIterator * iter)
    {
       uint8 * ftptr = GetFieldTypePointer(iter->_currentField);
       const uint32 fieldDataLen = GetFieldDataLength(ftptr);
-      iter->_currentField = ftptr+(sizeof(uint32)+sizeof(uint32)+fieldDataLen);
-      if (iter->_currentField > (iter->_message->_buffer+iter->_message->_numValidBytes))
+      uint8 * nextField = ftptr+(sizeof(uint32)+sizeof(uint32)+fieldDataLen);
+      if (nextField > (iter->_message->_buffer+iter->_message->_numValidBytes))
       {
-         printf("UMIteratorAdvance:  Iteration left the valid data range (" UINT32_FORMAT_SPEC " > " UINT32_FORMAT_SPEC "), aborting iteration!\n", (uint32)(iter->_currentField-iter->_message->_buffer), iter->_message->_numValidBytes);
-         iter->_currentField = NULL;
+         printf("UMIteratorAdvance:  Iteration left the valid data range (" UINT32_FORMAT_SPEC " > " UINT32_FORMAT_SPEC "), aborting iteration!\n", (uint32)(nextField-iter->_message->_buffer), iter->_message->_numValidBytes);
+         nextField = NULL;
       }
       else
       {
-         const uint32 bytesLeft = GetNumValidBytesAt(iter->_message, iter->_currentField);
+         const uint32 bytesLeft = GetNumValidBytesAt(iter->_message, nextField);
          if (bytesLeft < MINIMUM_FIELD_HEADERS_SIZE)
          {
             if (bytesLeft > 0) printf("UMIteratorAdvance:  Iteration found too-short field-header (" UINT32_FORMAT_SPEC " < " UINT32_FORMAT_SPEC "), aborting iteration!\n", bytesLeft, MINIMUM_FIELD_HEADERS_SIZE);
-            iter->_currentField = NULL;
+            nextField = NULL;
          }
       }
+      iter->_currentField = ((nextField)&&(IsFieldPointerValid(iter->_message, nextField))) ? nextField : NULL;  /* the next field's name and data must fit inside the buffer as well */
       if (UMIteratorCurrentFieldMatches(iter)) return;
    }
 }
